@@ -254,8 +254,15 @@ func (r *runner) runCase(c *Case) {
 	db := eng.New()
 	s := db.NewSession()
 	ev := &dbEvent{Ev: "db", Case: c.ID, Rows: c.Rows, Src: c, SQL: []string{}}
-	if ev.Rows == nil {
-		ev.Rows = [][]sqlast.Value{}
+	if c.Rows == nil {
+		c.Rows = [][]sqlast.Value{}
+		ev.Rows = c.Rows
+	}
+	if c.Aggs == nil {
+		c.Aggs = []AggQ{}
+	}
+	if c.Wins == nil {
+		c.Wins = []WinQ{}
 	}
 	must := func(q string) {
 		ev.SQL = append(ev.SQL, q)
